@@ -68,6 +68,15 @@ func c06Scens(tier string) []msScen {
 			}
 		}
 	}
+	// a client that is slow to take the preload-hint response (it stops until the writer has finished): the other
+	// requests are answered all the same, and the writer is not held up
+	for _, warm := range []int{6, 7} {
+		for _, writes := range []int{2, 3} {
+			for _, k := range []string{"BR", "PH", "PL", "BRPUB"} {
+				add(cfgLL, warm, writes, [][]string{{"PH!stall"}, {k}}, bound)
+			}
+		}
+	}
 	// video + audio rendition: the rendition's own playlist and parts
 	for _, writes := range []int{1, 3} {
 		for _, k := range []string{"BRA", "BR", "PH"} {
